@@ -173,7 +173,8 @@ func shortCallee(name string) string {
 func isNondetSource(name string) bool {
 	switch {
 	case strings.HasPrefix(name, "github.com/google/uuid.New"), name == "time.Now", strings.HasPrefix(name, "math/rand."), strings.HasPrefix(name, "math/rand/v2."),
-		strings.HasPrefix(name, "crypto/rand."), name == "os.Getpid", name == "os.Hostname", name == "os.Getenv", name == "os.Environ":
+		strings.HasPrefix(name, "crypto/rand."), name == "os.Getpid", name == "os.Hostname", name == "os.Getenv", name == "os.Environ",
+		name == "google.golang.org/protobuf/types/known/timestamppb.Now", name == "time.Since", name == "time.Until":
 		return true
 	}
 	return false
@@ -199,6 +200,11 @@ func nondetRule(c *Ctx, entries []string, allowed map[string]string) {
 					continue
 				}
 				key := fnName(f) + "→" + shortCallee(name)
+				// qualify by the struct field the value is stored into, so that a second use of an
+				// allowed source for another purpose is a different obligation
+				if sink := c.sinkField(f, ins.Pos()); sink != "" {
+					key += "@" + sink
+				}
 				if seen[key] {
 					continue
 				}
@@ -569,4 +575,21 @@ func stateDiscipline(c *Ctx, rule string, pkgRels []string, o *origins) map[*ssa
 		}
 	}
 	return res
+}
+
+// sinkField names the struct field (keyed literal element or assignment target) whose value
+// contains the call at pos, "" when the call is not part of a field initialisation.
+func (c *Ctx) sinkField(fn *ssa.Function, pos token.Pos) string {
+	top := topOf(fn)
+	fd, pk := c.P.FuncDecl(fnName(top))
+	if fd == nil || !pos.IsValid() {
+		return ""
+	}
+	out := ""
+	for _, fi := range fieldInits(pk, fd.Body) {
+		if fi.value.Pos() <= pos && pos <= fi.value.End() {
+			out = fi.field.Name()
+		}
+	}
+	return out
 }
